@@ -58,6 +58,19 @@ def parse_log(path):
                 recs.append(r); off += 5
             elif c in "ieFxo":
                 recs[-1].returned = True; off += 1
+            elif c == "B":
+                cnt = struct.unpack_from("<I", d, off + 1)[0]
+                off += 5
+                if off < n and chr(d[off]) == "b" and off + 1 + 8 * cnt <= n:
+                    clocks = struct.unpack_from("<%dQ" % cnt, d, off + 1)
+                    off += 1 + 8 * cnt
+                    for i in range(cnt):
+                        r = LogRec("ev"); r.mcv = "OB."; r.clock = clocks[i]
+                        r.payload = struct.pack("<QQ", i, (~i) & 0xFFFFFFFFFFFFFFFF)
+                        r.returned = True
+                        recs.append(r)
+                else:
+                    break       # killed inside the bulk: nothing is known about these events
             elif c == "E":
                 r = LogRec("ev")
                 r.mcv = d[off + 1:off + 4].decode("latin-1")
